@@ -29,11 +29,14 @@ PROPERTY = "C02"
 LEAN_MODULES = ["VgiVerif.Proofs.C02"]
 OBLIGATIONS = [
     "VgiVerif.C02.C02_roundtrip",
+    "VgiVerif.C02.C02_result",
     "VgiVerif.C02.C02_echo",
     "VgiVerif.C02.C02_stable",
+    "VgiVerif.C02.C02_echo_partial",
     "VgiVerif.C02.C02_reject_partial",
     "VgiVerif.C02.C02_none",
     "VgiVerif.C02.C02_signature",
+    "VgiVerif.C02.C02_signature_echo",
     "VgiVerif.C02.C02_shapes",
 ]
 EXTRACTORS = ["gen_c02", "gen_c03"]
@@ -47,6 +50,11 @@ TRUSTED = [
     "and the harness checks every transport against it",
 ]
 PARTIAL = [
+    "Spec.Rejects is proved as C02_reject_partial (hypothesis `lossless`): temporal columns with second / millisecond units truncate "
+    "instead of rejecting — open finding, negation proved on a witness in Findings/C02.lean",
+    "Spec.Echoes is proved as C02_echo (for every value whose stored form is stable) + C02_stable / C02_echo_partial (stability under "
+    "the environment laws for every supported type except dataclass parameters with transient or float32 fields, for which only "
+    "the one-hop theorem C02_roundtrip is proved)",
     "Arrow's typed-array conversion is environment; the theorems are about the framework's conversion layer around it",
     "values of the wrong Python type (1.5 for an int parameter, an aware datetime for a naive timestamp column) are outside the "
     "quantifier: pyarrow converts some of them silently",
@@ -383,6 +391,18 @@ def kind_path(t: dict[str, Any]) -> str:
 # ------------------------------------------------------------------------------------------------ generated services
 
 
+_SEEN_KEYS: set[str] = set()
+
+
+def fail_once(ctx: Any, case: Any, key: str, what: str) -> None:
+    """One failure per key and run: a frequent (known) class must not use up the failure buffer and hide a different one."""
+    if key in _SEEN_KEYS:
+        ctx.tag("repeat:" + key[:70])
+        return
+    _SEEN_KEYS.add(key)
+    ctx.fail(case, key, what)
+
+
 class Recorder:
     def __init__(self) -> None:
         self.calls: list[tuple[str, dict[str, Any]]] = []
@@ -508,26 +528,26 @@ def judge(ctx: Any, case: dict[str, Any], tdesc: dict[str, Any], node: dcgen.Nod
     none_bad = jval is None and tdesc["k"] != "opt"
     path = kind_path(tdesc)
     if status in ("hang", "dead") or not server_alive:
-        ctx.fail(case, f"C02:server-died:{path}:{transport}", f"the server stopped answering after echoing a {path} value (status {status})")
+        fail_once(ctx, case, f"C02:server-died:{path}:{transport}", f"the server stopped answering after echoing a {path} value (status {status})")
         return
     if status == "ok":
         gj = dcgen.to_j(got, strict=False)
         if fit and not none_bad:
             want = dcgen.to_j(expected(node, sent), strict=False)
             if gj != want:
-                ctx.fail(case, f"C02:echo-differs:{path}", f"echo returned {gj}, sent {want} ({transport})")
+                fail_once(ctx, case, f"C02:echo-differs:{path}", f"echo returned {gj}, sent {want} ({transport})")
         else:
             if gj != dcgen.to_j(sent, strict=False):
-                ctx.fail(case, f"C02:silent-change:{offending(tdesc, jval)}", f"a value the declared type cannot represent was changed, not rejected: "
+                fail_once(ctx, case, f"C02:silent-change:{offending(tdesc, jval)}", f"a value the declared type cannot represent was changed, not rejected: "
                                                               f"sent {dcgen.to_j(sent, False)}, got {gj} ({transport})")
     else:
         if fit and not none_bad:
-            ctx.fail(case, f"C02:echo-error:{path}:{type(got).__name__}", f"a representable value was refused ({transport}): {type(got).__name__}: {str(got)[:200]}")
+            fail_once(ctx, case, f"C02:echo-error:{path}:{type(got).__name__}", f"a representable value was refused ({transport}): {type(got).__name__}: {str(got)[:200]}")
     if have_received and fit and not none_bad:
         rj = dcgen.to_j(received, strict=False)
         want = dcgen.to_j(expected(node, sent), strict=False)
         if rj != want:
-            ctx.fail(case, f"C02:kwargs-differ:{path}", f"the implementation received {rj}, the client passed {want} ({transport})")
+            fail_once(ctx, case, f"C02:kwargs-differ:{path}", f"the implementation received {rj}, the client passed {want} ({transport})")
     if model is not None:
         m_echo = _canon_model(model["echo"])
         i_echo = {"ok": dcgen.to_j(got)} if status == "ok" else {"err": 1}
@@ -555,7 +575,7 @@ def run_values(ctx: Any, types: list[dict[str, Any]], values: list[list[Any]], o
     except Exception as e:  # noqa: BLE001
         case = {"kind": "values", "types": types}
         ctx.case(case, tags=("service-build-error",))
-        ctx.fail(case, f"C02:service-rejected:{type(e).__name__}", f"a Protocol over supported types was refused: {e!r}")
+        fail_once(ctx, case, f"C02:service-rejected:{type(e).__name__}", f"a Protocol over supported types was refused: {e!r}")
         return
     drv = ctx.driver
     if drv is not None:
@@ -638,7 +658,7 @@ def run_signatures(ctx: Any, items: list[tuple[list[dict[str, Any]], list[list[l
     except Exception as e:  # noqa: BLE001
         case = {"kind": "signature", "sig": [sg for sg, _ in items]}
         ctx.case(case, tags=("service-build-error",))
-        ctx.fail(case, f"C02:service-rejected:{type(e).__name__}", f"a Protocol over supported types was refused: {e!r}")
+        fail_once(ctx, case, f"C02:service-rejected:{type(e).__name__}", f"a Protocol over supported types was refused: {e!r}")
         return
     drv = ctx.driver
     for tr in transports(ctx):
@@ -687,20 +707,20 @@ def _run_one_signature(ctx: Any, drv: Any, tr: str, runner: Any, P: Any, impl: A
                     have = bool(rec.calls)
                     alive = runner.server_alive()
                     if status in ("hang", "dead") or not alive:
-                        ctx.fail(case, f"C02:server-died:signature:{tr}", f"the server stopped answering (status {status})")
+                        fail_once(ctx, case, f"C02:server-died:signature:{tr}", f"the server stopped answering (status {status})")
                         runner.dead = True
                         continue
                     nm_i = dcgen.j2s(p["name"])
                     if ok_expected:
                         if status != "ok":
-                            ctx.fail(case, f"C02:echo-error:signature:{type(got).__name__}", f"a call with representable arguments was refused: {got!r}"[:300])
+                            fail_once(ctx, case, f"C02:echo-error:signature:{type(got).__name__}", f"a call with representable arguments was refused: {got!r}"[:300])
                         else:
                             want_kw = {nm: dcgen.to_j(expected(node, dcgen.to_py(node, jv)), strict=False) for nm, (node, jv) in merged.items()}
                             got_kw = {nm: dcgen.to_j(v, strict=False) for nm, v in rec.calls[-1][1].items()} if have else None
                             if got_kw != want_kw:
-                                ctx.fail(case, "C02:defaults-differ", f"implementation received {got_kw}, specified args ⊔ defaults {want_kw}")
+                                fail_once(ctx, case, "C02:defaults-differ", f"implementation received {got_kw}, specified args ⊔ defaults {want_kw}")
                             if dcgen.to_j(got, strict=False) != want_kw[nm_i]:
-                                ctx.fail(case, f"C02:echo-differs:signature:{kind_path(p['ty'])}", f"returned {dcgen.to_j(got, False)}, expected {want_kw[nm_i]}")
+                                fail_once(ctx, case, f"C02:echo-differs:signature:{kind_path(p['ty'])}", f"returned {dcgen.to_j(got, False)}, expected {want_kw[nm_i]}")
                     elif status == "ok":
                         # some argument is not representable: the call must not go through with a changed value
                         for nm, (node, jv) in merged.items():
@@ -708,7 +728,7 @@ def _run_one_signature(ctx: Any, drv: Any, tr: str, runner: Any, P: Any, impl: A
                                 sentj = dcgen.to_j(dcgen.to_py(node, jv), strict=False)
                                 if dcgen.to_j(rec.calls[-1][1].get(nm), strict=False) != sentj:
                                     ty = [q for q in sig if dcgen.j2s(q["name"]) == nm][0]["ty"]
-                                    ctx.fail(case, f"C02:silent-change:{offending(ty, jv)}", f"parameter {nm}: sent {sentj}, implementation received "
+                                    fail_once(ctx, case, f"C02:silent-change:{offending(ty, jv)}", f"parameter {nm}: sent {sentj}, implementation received "
                                                                                         f"{dcgen.to_j(rec.calls[-1][1].get(nm), False)}")
                     if model is not None:
                         mk = model["kwargs"]
@@ -795,6 +815,7 @@ def corpus_types() -> tuple[list[dict[str, Any]], list[list[Any]]]:
 
 
 def run(ctx: Any) -> None:
+    _SEEN_KEYS.clear()
     msgpack_shim.install()
     import warnings
 
@@ -803,7 +824,7 @@ def run(ctx: Any) -> None:
     check_native_env(ctx)
     ct, cv = corpus_types()
     run_values(ctx, ct, cv, "corpus")
-    n_bundles = ctx.budget(25, 500)
+    n_bundles = ctx.budget(20, 500)
     per_type = 8 if ctx.tier == "quick" else 10
     for b in range(n_bundles):
         types = [gen_ty(rng) for _ in range(12)]
@@ -812,7 +833,7 @@ def run(ctx: Any) -> None:
         if ctx.elapsed() > (28 if ctx.tier == "quick" else 500):
             ctx.note("value_bundles_run", b + 1)
             break
-    n_sigs = ctx.budget(300, 3000)
+    n_sigs = ctx.budget(240, 3000)
     pending: list[Any] = []
     for sidx in range(n_sigs):
         sig = gen_signature(rng)
@@ -834,6 +855,7 @@ def run(ctx: Any) -> None:
 
 
 def replay(ctx: Any, case: dict[str, Any]) -> None:
+    _SEEN_KEYS.clear()
     msgpack_shim.install()
     import warnings
 
